@@ -5,7 +5,7 @@ from core import World, hx
 from gen import Gen
 from suites import run_suite
 
-LEAN_MODULES = ['GoSnaps.Props.C10', 'GoSnaps.Lemmas.NaturalOrder', 'GoSnaps.Props.C10Order', 'GoSnaps.Props.Tie.TestID', 'GoSnaps.Props.Tie.CleanIO', 'GoSnaps.Props.Tie.CleanTopIO1', 'GoSnaps.Props.Tie.CleanTopIO2', 'GoSnaps.Props.Tie.CleanTopIO3', 'GoSnaps.Props.Tie.CleanTopIO', 'GoSnaps.Props.Tie.EndToEndClean', 'GoSnaps.Props.Tie.EndToEndClean2', 'GoSnaps.Props.Tie.EndToEndOrder']
+LEAN_MODULES = ['GoSnaps.Props.C10', 'GoSnaps.Lemmas.NaturalOrder', 'GoSnaps.Props.C10Order', 'GoSnaps.Props.Tie.TestID', 'GoSnaps.Props.Tie.CleanIO', 'GoSnaps.Props.Tie.CleanTopIO1', 'GoSnaps.Props.Tie.CleanTopIO2', 'GoSnaps.Props.Tie.CleanTopIO3', 'GoSnaps.Props.Tie.CleanTopIO', 'GoSnaps.Props.Tie.EndToEndClean', 'GoSnaps.Props.Tie.EndToEndClean2', 'GoSnaps.Props.Tie.EndToEndOrder', 'GoSnaps.Props.Tie.Wrappers']
 ORACLES = {'C07': [('matched-entries-kept', cw.o_matched_kept)],
            'C09': [('stale-reported-and-removed-only-in-clean-mode', cw.o_stale_reported)],
            'C10': [('rewrite-preserves-sorted-idempotent', cw.o_rewrite_preserves)]}['C10']
